@@ -129,6 +129,7 @@ func checkPar(t *testing.T, pc ParCase) (v harness.Verdict) {
 	for i := range pc.Plans {
 		pc.Plans[i].LatMs, pc.Plans[i].ErrLatMs = 0, 0
 	}
+	persistCase("parallel", pc)
 	c := &Case{Init: pc.Size, Start: pc.Start, Batch: pc.Batch, Fetchers: pc.Fetchers, Plans: pc.Plans, CbLatMs: []int64{0}}
 	log := buildLog(pc.Size, pc.PoolSeed, pc.Stride)
 
